@@ -231,3 +231,97 @@ CONTRACTS['backoff_iter'] = backoff_iter
 def make_engine(repo):
     from pyvc.engine import Engine
     return Engine(repo, FILE, classes=CLASSES, contracts=CONTRACTS, consts=CONSTS, externals=EXTERNALS)
+
+
+# ---- default count (count=None, factor > 1): the last value is stop ----------------------------------------------------------------
+# pw(f, k) = f**k for integer k >= 0 (recursive definition); math.log / math.ceil are given their mathematical meaning over
+# the reals (trusted): c = ceil(log(x, f)) for f > 1, x >= 1 satisfies c >= 0, f**c >= x and (c >= 1 => f**(c-1) < x).
+pw = z3.Function('pw', z3.RealSort(), z3.IntSort(), z3.RealSort())      # uninterpreted; defining equations are instantiated as axioms
+_LOGS = {}
+
+
+def ext_log2(eng, args, kwargs, st, node):
+    x, f = args[0], args[1]
+    out = []
+    for side, s in eng.fork(st, f.t == 1, 'log base 1'):
+        if side:
+            out.append((SExc('ZeroDivisionError'), s))
+        else:
+            v = s.fresh.const('log', z3.RealSort())
+            _LOGS[v.get_id()] = (x.t, f.t)
+            out.append((SReal(v), s))
+    eng.trusted.add('math.log(x, f) / math.ceil over the reals: c = ceil(log_f x) with f > 1, x >= 1 gives c >= 0, f**c >= x, f**(c-1) < x (c >= 1)')
+    return out
+
+
+def ext_ceil2(eng, args, kwargs, st, node):
+    v = args[0]
+    c = st.fresh.const('ceil', z3.IntSort())
+    info = _LOGS.get(v.t.get_id()) if isinstance(v, SReal) else None
+    if info is None:
+        return [(SInt(c), st)]
+    x, f = info
+    facts = z3.Implies(z3.And(f > 1, x >= 1), z3.And(c >= 0, pw(f, c) >= x, z3.Implies(c >= 1, pw(f, c - 1) < x)))
+    return [(SInt(c), st.assume(facts))]
+
+
+def bo_default_setup(eng, st, variant):
+    return bo_setup(eng, st, 'none,nojit')
+
+
+def bo_default_requires(c):
+    return [('the statement covers the default count for factor > 1 and valid parameters', z3.And(c.a('factor') > 1, bo_valid(c)))]
+
+
+def bo_F(c, j):
+    """the j-th un-jittered value in closed form"""
+    start, stop, f = c.a('start'), c.a('stop'), c.a('factor')
+    cap = lambda v: z3.If(v > stop, stop, v)  # noqa: E731
+    D = z3.If(stop < 1, stop, z3.RealVal(1))
+    return z3.If(start > 0, cap(start * pw(f, j)), z3.If(j <= 0, z3.RealVal(0), cap(D * pw(f, j - 1))))
+
+
+def bo_default_inv(c):
+    n, base = c.g('out_n'), c.g('base')
+    e = c.x['loop_entry']
+    start, stop, f = c.a('start'), c.a('stop'), c.a('factor')
+    cnt0 = e.locals['count'].t
+    return bo_inv(c) + [
+        ('the derived count does not change', c.L('count') == cnt0),
+        ('cur has its closed form', c.L('cur') == bo_F(c, n)),
+        ('the last value yielded has its closed form', z3.Implies(n >= 1, z3.Select(base, n - 1) == bo_F(c, n - 1))),
+        ('n <= count', n <= cnt0)]
+
+
+def bo_default_ensures(c):
+    n, base = c.g('out_n'), c.g('base')
+    return bo_facts(c, n, base, c.g('out_0')) + [('with the default count the last value is stop',
+                                                 z3.And(n >= 1, z3.Select(base, n - 1) == c.a('stop')))]
+
+
+def bo_default_hints(c, event, data):
+    out = list(bo_hints(c, event, data))
+    if event == 'yield':
+        f, stop = c.a('factor'), c.a('stop')
+        n = c.g('out_n')
+        # unfoldings of the power function around the current index and monotonicity facts (each proved on its own)
+        cur = c.L('cur')
+        AX = 'pw(f, 0) = 1, pw(f, k+1) = f * pw(f, k) for k >= 0 (definition of integer powers)'
+        out.append(('axiom', AX, pw(f, 0) == 1))
+        for j in (n, n - 1):
+            out.append(('axiom', AX, z3.Implies(j >= 0, pw(f, j + 1) == f * pw(f, j))))
+        out.append(('mul_ge', z3.Implies(z3.And(f >= 1, cur >= stop, stop > 0), f * cur >= stop)))
+    return out
+
+
+backoff_default = Contract('backoff_iter', setup=bo_default_setup, requires=bo_default_requires, ensures=bo_default_ensures,
+                           raises={}, modifies=lambda c: [], loops={0: Loop(bo_default_inv, heap=[], ghost=['base'])},
+                           generator=True, hints=bo_default_hints, variants=['default'],
+                           facts=lambda c: [('axiom pw(f, 0) = 1', pw(c.a('factor'), 0) == 1)])
+CONTRACTS_DEFAULT = {'backoff_iter': backoff_default}
+EXTERNALS_DEFAULT = {'random.random': ext_random, 'math.log': ext_log2, 'math.ceil': ext_ceil2}
+
+
+def make_engine_default(repo):
+    from pyvc.engine import Engine
+    return Engine(repo, FILE, classes=CLASSES, contracts=CONTRACTS_DEFAULT, consts=CONSTS, externals=EXTERNALS_DEFAULT)
